@@ -74,6 +74,8 @@ def applyEditor (a : Agg) (ed : String) (x : Bytes) (flags : Option (Bool × Boo
     let dflt := if special then Spec.defaultPort (getProtocol a).dropLast else none
     some (setPortM 4000000000 isFile dflt a x).1
   | "consume_prepared_path" => some (consumePreparedPath a (if isFile then 6 else if special then 0 else 1) x)
+  | "clear_pathname" => some (clearPathname a)
+  | "set_pathname" => some (setPathnameM 4000000000 (if isFile then 6 else if special then 0 else 1) special a x).1
   | "set_search" => if x.isEmpty then none else some (setSearchM 4000000000 special a x)
   | "set_hash" => if x.isEmpty then none else some (setHashM 4000000000 a x)
   | "set_scheme" => some (setScheme a x)
